@@ -270,13 +270,17 @@ prop('C12', level='other',
                  'independent per-slice calls.')
 
 prop('C13', level='other', units=[DF + 'epoch_df', GF + 'compute_features_2d'], jobs=['epoch_df', 'group_epoched'],
+     lemmas=['epoch_partition'],
      unit_jobs={DF + 'epoch_df': ['epoch_df'], GF + 'compute_features_2d': ['group_epoched']},
      no_input_kinds=('ensures', 'frame'),
      explanation='Proved for an ARBITRARY epoch e and any number of epochs / rows (per-iteration postcondition of the loop in '
                  'epoch_df): the window is (e*L, (e+1)*L] on the closing side extremum; the table built for it consists of exactly '
                  'the cycles whose closing extremum lies in the window, in the original order, every value unchanged, every sample_* '
-                 'column reduced by e*L; the input table is untouched (frame). That every cycle lies in exactly one such window '
-                 '(partition) and that the tables are collected in epoch order is bounded (exhaustive small tables incl. boundaries on '
+                 'column reduced by e*L; the input table is untouched (frame). Lemma epoch_partition (pure integer arithmetic, five '
+                 'steps): for N = ceil(n / L) windows - the ones np.arange(L, n + L, L) yields - every closing sample 0 < s <= N*L lies '
+                 'in exactly one window (e = (s - 1) div L; no second one), and the windows cover the signal: with the per-epoch '
+                 'postcondition, every cycle of the flattened analysis appears in exactly one epoch, the one containing its closing '
+                 'extremum. That the tables are collected in epoch order is bounded (exhaustive small tables incl. boundaries on '
                  'cycle ends and empty epochs). compute_features_2d(axis=None), proved over opaque signals / option sets / tables for any '
                  'number of rows: the result has one entry per row and entry e is epoch_df\'s table e (epoch length = row length) of '
                  'ONE analysis of the concatenated rows with return_samples=True and the given options (popping center_extrema and '
